@@ -1,17 +1,1110 @@
-//! C11 — stub (monitor not written yet)
-use serde_json::Value;
+//! C11 — the qualifier collection behaves as a case-insensitive sorted map.
+//!
+//! Model-based online monitor: every operation is applied to the real `Qualifiers` and to the
+//! reference map R5 (`BTreeMap<ascii-lower key, value>`) in lock-step; the rendered return
+//! value and the complete observable state are compared after every step.
+
+use std::collections::hash_map::DefaultHasher;
+use std::collections::BTreeMap;
+use std::hash::{Hash, Hasher};
+
+use purl::qualifiers::well_known::gem::Platform;
+use purl::qualifiers::well_known::maven::{Classifier, Type as MavenType};
+use purl::qualifiers::well_known::{Checksum, DownloadUrl, FileName, RepositoryUrl, VcsUrl};
+use purl::qualifiers::Entry;
+use purl::{Qualifiers, SmallString};
+use serde::{Deserialize, Serialize};
+use serde_json::{json, Value};
 
 use super::Fail;
-use crate::obs::{Ctx, Tier};
+use crate::exec::make_checksum;
+use crate::gen;
+use crate::hist::{checksum_inserts_text, CsVal, TYPED_KEYS};
+use crate::model::{ascii_lower, key_ok, lower};
+use crate::obs::{guard, Ctx, Out, Tier};
+use crate::rng::{fnv, Rng};
+use crate::shrink::shrink_vec;
 
-pub const RULE: &str = "";
+pub const RULE: &str = "a case is one transition (collection content, operation with arguments); non-trivial = the operation touches a key (any case) or iterates a collection with >= 2 entries; distinct by hash of (content, operation)";
 
-pub fn requirements(_tier: Tier) -> Vec<(&'static str, u64)> {
-    vec![("not-implemented", 1)]
+pub fn requirements(tier: Tier) -> Vec<(&'static str, u64)> {
+    let q = tier == Tier::Quick;
+    vec![
+        ("set:exhaustive-contents-reached", 64),
+        ("exhaustive-transitions", 30_000),
+        ("random-histories", if q { 20_000 } else { 1_000_000 }),
+        ("random-transitions", if q { 1_000_000 } else { 50_000_000 }),
+        ("max:collection-size", 8),
+        ("set:operation-forms-exercised", 43),
+        ("observed:documented-index-panic", 1_000),
+        ("observed:invalid-key-refused", 10_000),
+        ("observed:case-variant-lookup-hit", 10_000),
+        ("observed:try-from-iter-duplicate-refused", 100),
+    ]
 }
 
-pub fn run(_ctx: &mut Ctx) {}
+type M = BTreeMap<String, String>;
 
-pub fn replay(_monitor: &str, _case: &Value) -> Result<Option<Fail>, String> {
-    Err("not implemented".into())
+#[derive(Clone, Debug, Serialize, Deserialize, PartialEq, Eq, Hash)]
+pub enum Pred {
+    All,
+    Nothing,
+    KeyLe(String),
+    ValueNonEmpty,
+    /// `|k, _| *k == S` — uses QualifierKey's case-insensitive comparison
+    KeyEq(String),
+    KeyNe(String),
+}
+
+impl Pred {
+    fn eval(&self, lk: &str, v: &str) -> bool {
+        match self {
+            Pred::All => true,
+            Pred::Nothing => false,
+            Pred::KeyLe(x) => lk <= x.as_str(),
+            Pred::ValueNonEmpty => !v.is_empty(),
+            Pred::KeyEq(s) => lk == lower(s),
+            Pred::KeyNe(s) => lk != lower(s),
+        }
+    }
+
+    fn eval_real(&self, k: &purl::qualifiers::QualifierKey, v: &str) -> bool {
+        match self {
+            Pred::All => true,
+            Pred::Nothing => false,
+            Pred::KeyLe(x) => k.as_str() <= x.as_str(),
+            Pred::ValueNonEmpty => !v.is_empty(),
+            Pred::KeyEq(s) => *k == *s.as_str(),
+            Pred::KeyNe(s) => *k != *s.as_str(),
+        }
+    }
+}
+
+#[derive(Clone, Debug, Serialize, Deserialize, PartialEq, Eq, Hash)]
+pub enum QOp {
+    Insert(String, String),
+    Remove(String),
+    Get(String),
+    GetMut(String, String),
+    Contains(String),
+    Index(String),
+    IndexMut(String, String),
+    EntryClassify(String),
+    EntryOrInsert(String, String),
+    EntryOrInsertWith(String, String),
+    EntryAndModifyOrInsert(String, String, String),
+    OccGet(String),
+    OccGetMut(String, String),
+    OccIntoMut(String, String),
+    OccInsert(String, String),
+    OccRemove(String),
+    OccRemoveEntry(String),
+    VacInsert(String, String),
+    InsertTyped(u8, String),
+    TryInsertChecksum(Vec<(String, CsVal)>),
+    RemoveTyped(u8),
+    GetTyped(u8),
+    TryGetChecksum,
+    ContainsTyped(u8),
+    Retain(Pred),
+    RetainMut(Pred, String),
+    Clear,
+    Reserve(u8),
+    ReserveExact(u8),
+    IterFwd,
+    IterBack,
+    /// bit i = 1: next_back, else next; len()/size_hint checked at every step
+    IterInterleaved(u32),
+    IterMutAppend(String),
+    IterMutBackFirst(String),
+    IntoIterRef,
+    IntoIterMutAppend(String),
+    LenIsEmpty,
+    CloneEqHash,
+    TryFromIter(Vec<(String, String)>),
+    /// second collection with the same content, inserted in another order and key case
+    Rebuild(u64),
+    CmpWith(Vec<(String, String)>),
+    /// compare the stored key `k` with the ASCII string `s` through QualifierKey's PartialEq / PartialOrd
+    KeyCmp(String, String),
+    KeyDerefAsRef(String),
+}
+
+impl QOp {
+    pub fn form(&self) -> &'static str {
+        match self {
+            QOp::Insert(..) => "insert",
+            QOp::Remove(..) => "remove",
+            QOp::Get(..) => "get",
+            QOp::GetMut(..) => "get_mut",
+            QOp::Contains(..) => "contains_key",
+            QOp::Index(..) => "index",
+            QOp::IndexMut(..) => "index_mut",
+            QOp::EntryClassify(..) => "entry",
+            QOp::EntryOrInsert(..) => "entry.or_insert",
+            QOp::EntryOrInsertWith(..) => "entry.or_insert_with",
+            QOp::EntryAndModifyOrInsert(..) => "entry.and_modify.or_insert",
+            QOp::OccGet(..) => "occupied.get",
+            QOp::OccGetMut(..) => "occupied.get_mut",
+            QOp::OccIntoMut(..) => "occupied.into_mut",
+            QOp::OccInsert(..) => "occupied.insert",
+            QOp::OccRemove(..) => "occupied.remove",
+            QOp::OccRemoveEntry(..) => "occupied.remove_entry",
+            QOp::VacInsert(..) => "vacant.insert",
+            QOp::InsertTyped(..) => "insert_typed",
+            QOp::TryInsertChecksum(..) => "try_insert_typed",
+            QOp::RemoveTyped(..) => "remove_typed",
+            QOp::GetTyped(..) => "get_typed",
+            QOp::TryGetChecksum => "try_get_typed",
+            QOp::ContainsTyped(..) => "contains_typed",
+            QOp::Retain(..) => "retain",
+            QOp::RetainMut(..) => "retain_mut",
+            QOp::Clear => "clear",
+            QOp::Reserve(..) => "reserve",
+            QOp::ReserveExact(..) => "reserve_exact",
+            QOp::IterFwd => "iter",
+            QOp::IterBack => "iter.rev",
+            QOp::IterInterleaved(..) => "iter.next/next_back",
+            QOp::IterMutAppend(..) => "iter_mut",
+            QOp::IterMutBackFirst(..) => "iter_mut.next_back",
+            QOp::IntoIterRef => "into_iter(&)",
+            QOp::IntoIterMutAppend(..) => "into_iter(&mut)",
+            QOp::LenIsEmpty => "len/is_empty",
+            QOp::CloneEqHash => "clone/eq/hash",
+            QOp::TryFromIter(..) => "try_from_iter",
+            QOp::Rebuild(..) => "rebuild-other-order",
+            QOp::CmpWith(..) => "cmp",
+            QOp::KeyCmp(..) => "QualifierKey.cmp",
+            QOp::KeyDerefAsRef(..) => "QualifierKey.deref",
+        }
+    }
+
+    fn key(&self) -> Option<&str> {
+        match self {
+            QOp::Insert(k, _) | QOp::Remove(k) | QOp::Get(k) | QOp::GetMut(k, _) | QOp::Contains(k) | QOp::Index(k) | QOp::IndexMut(k, _) | QOp::EntryClassify(k)
+            | QOp::EntryOrInsert(k, _) | QOp::EntryOrInsertWith(k, _) | QOp::EntryAndModifyOrInsert(k, _, _) | QOp::OccGet(k) | QOp::OccGetMut(k, _) | QOp::OccIntoMut(k, _)
+            | QOp::OccInsert(k, _) | QOp::OccRemove(k) | QOp::OccRemoveEntry(k) | QOp::VacInsert(k, _) | QOp::KeyCmp(k, _) | QOp::KeyDerefAsRef(k) => Some(k),
+            _ => None,
+        }
+    }
+}
+
+fn opt(v: Option<&str>) -> String {
+    match v {
+        Some(v) => format!("Some({v:?})"),
+        None => "None".into(),
+    }
+}
+
+fn list(m: &M) -> String {
+    format!("{:?}", m.iter().collect::<Vec<_>>())
+}
+
+fn structure_checksum(text: &str) -> Result<Vec<(String, String)>, ()> {
+    let mut m: BTreeMap<String, String> = BTreeMap::new();
+    for e in text.split(',') {
+        let pos = e.rfind(':').ok_or(())?;
+        if m.insert(lower(&e[..pos]), e[pos + 1..].to_string()).is_some() {
+            return Err(());
+        }
+    }
+    Ok(m.into_iter().collect())
+}
+
+const PANIC: &str = "PANIC";
+
+/// The model: returns the rendered result the real call must produce.
+pub fn apply_model(m: &mut M, op: &QOp) -> String {
+    let present = |m: &M, k: &str| if key_ok(k) { m.get(&ascii_lower(k)).cloned() } else { None };
+    match op {
+        QOp::Insert(k, v) => {
+            if !key_ok(k) {
+                return "Err(InvalidQualifier)".into();
+            }
+            m.insert(ascii_lower(k), v.clone());
+            format!("Ok({v:?})")
+        },
+        QOp::Remove(k) => {
+            let r = if key_ok(k) { m.remove(&ascii_lower(k)) } else { None };
+            opt(r.as_deref())
+        },
+        QOp::Get(k) => opt(present(m, k).as_deref()),
+        QOp::GetMut(k, nv) => {
+            let old = present(m, k);
+            if old.is_some() {
+                m.insert(ascii_lower(k), nv.clone());
+            }
+            opt(old.as_deref())
+        },
+        QOp::Contains(k) => present(m, k).is_some().to_string(),
+        QOp::Index(k) => present(m, k).map(|v| format!("{v:?}")).unwrap_or_else(|| PANIC.into()),
+        QOp::IndexMut(k, nv) => match present(m, k) {
+            Some(old) => {
+                m.insert(ascii_lower(k), nv.clone());
+                format!("{old:?}")
+            },
+            None => PANIC.into(),
+        },
+        QOp::EntryClassify(k) => {
+            if !key_ok(k) {
+                "Err(InvalidQualifier)".into()
+            } else if m.contains_key(&ascii_lower(k)) {
+                "Occupied".into()
+            } else {
+                "Vacant".into()
+            }
+        },
+        QOp::EntryOrInsert(k, v) | QOp::EntryOrInsertWith(k, v) => {
+            if !key_ok(k) {
+                return "Err(InvalidQualifier)".into();
+            }
+            let e = m.entry(ascii_lower(k)).or_insert_with(|| v.clone());
+            format!("{e:?}")
+        },
+        QOp::EntryAndModifyOrInsert(k, app, v) => {
+            if !key_ok(k) {
+                return "Err(InvalidQualifier)".into();
+            }
+            let e = m.entry(ascii_lower(k)).and_modify(|x| x.push_str(app)).or_insert_with(|| v.clone());
+            format!("{e:?}")
+        },
+        QOp::OccGet(k) => match apply_model(m, &QOp::EntryClassify(k.clone())).as_str() {
+            "Occupied" => format!("{:?}", m[&ascii_lower(k)]),
+            o => o.to_string(),
+        },
+        QOp::OccGetMut(k, nv) | QOp::OccIntoMut(k, nv) | QOp::OccInsert(k, nv) => match apply_model(m, &QOp::EntryClassify(k.clone())).as_str() {
+            "Occupied" => {
+                let old = m.insert(ascii_lower(k), nv.clone()).unwrap();
+                format!("{old:?}")
+            },
+            o => o.to_string(),
+        },
+        QOp::OccRemove(k) => match apply_model(m, &QOp::EntryClassify(k.clone())).as_str() {
+            "Occupied" => format!("{:?}", m.remove(&ascii_lower(k)).unwrap()),
+            o => o.to_string(),
+        },
+        QOp::OccRemoveEntry(k) => match apply_model(m, &QOp::EntryClassify(k.clone())).as_str() {
+            "Occupied" => {
+                let lk = ascii_lower(k);
+                let v = m.remove(&lk).unwrap();
+                format!("({lk:?}, {v:?})")
+            },
+            o => o.to_string(),
+        },
+        QOp::VacInsert(k, v) => match apply_model(m, &QOp::EntryClassify(k.clone())).as_str() {
+            "Vacant" => {
+                m.insert(ascii_lower(k), v.clone());
+                format!("{v:?}")
+            },
+            o => o.to_string(),
+        },
+        QOp::InsertTyped(i, v) => {
+            m.insert(TYPED_KEYS[*i as usize].into(), v.clone());
+            "()".into()
+        },
+        QOp::TryInsertChecksum(entries) => match checksum_inserts_text(entries) {
+            Ok(t) => {
+                m.insert("checksum".into(), t);
+                "Ok".into()
+            },
+            Err(e) => format!("Err({e})"),
+        },
+        QOp::RemoveTyped(i) => {
+            m.remove(TYPED_KEYS[*i as usize]);
+            "()".into()
+        },
+        QOp::GetTyped(i) => opt(m.get(TYPED_KEYS[*i as usize]).map(|s| s.as_str())),
+        QOp::TryGetChecksum => match m.get("checksum") {
+            None => "Ok(None)".into(),
+            Some(t) => match structure_checksum(t) {
+                Ok(v) => format!("Ok(Some({v:?}))"),
+                Err(()) => "Err(InvalidQualifier)".into(),
+            },
+        },
+        QOp::ContainsTyped(i) => m.contains_key(TYPED_KEYS[*i as usize]).to_string(),
+        QOp::Retain(p) => {
+            m.retain(|k, v| p.eval(k, v));
+            "()".into()
+        },
+        QOp::RetainMut(p, app) => {
+            m.retain(|k, v| {
+                let keep = p.eval(k, v);
+                v.push_str(app);
+                keep
+            });
+            "()".into()
+        },
+        QOp::Clear => {
+            m.clear();
+            "()".into()
+        },
+        QOp::Reserve(_) | QOp::ReserveExact(_) => "capacity-ok".into(),
+        QOp::IterFwd | QOp::IntoIterRef => list(m),
+        QOp::IterBack => format!("{:?}", m.iter().rev().collect::<Vec<_>>()),
+        QOp::IterInterleaved(bits) => {
+            let items: Vec<(&String, &String)> = m.iter().collect();
+            let (mut lo, mut hi) = (0usize, items.len());
+            let mut out = String::new();
+            let mut step = 0;
+            loop {
+                out.push_str(&format!("[len={}]", hi - lo));
+                if lo == hi {
+                    out.push_str("None,None");
+                    break;
+                }
+                if bits >> (step % 32) & 1 == 1 {
+                    hi -= 1;
+                    out.push_str(&format!("{:?}", items[hi]));
+                } else {
+                    out.push_str(&format!("{:?}", items[lo]));
+                    lo += 1;
+                }
+                step += 1;
+            }
+            out
+        },
+        QOp::IterMutAppend(app) | QOp::IntoIterMutAppend(app) => {
+            for v in m.values_mut() {
+                v.push_str(app);
+            }
+            list(m)
+        },
+        QOp::IterMutBackFirst(app) => {
+            if let Some((_, v)) = m.iter_mut().next_back() {
+                v.push_str(app);
+            }
+            list(m)
+        },
+        QOp::LenIsEmpty => format!("{},{}", m.len(), m.is_empty()),
+        QOp::CloneEqHash | QOp::Rebuild(_) => "true".into(),
+        QOp::TryFromIter(pairs) => {
+            let mut n = M::new();
+            for (k, v) in pairs {
+                if !key_ok(k) || n.insert(ascii_lower(k), v.clone()).is_some() {
+                    return "Err(InvalidQualifier)".into();
+                }
+            }
+            *m = n;
+            format!("Ok({})", list(m))
+        },
+        QOp::CmpWith(pairs) => {
+            let other: M = pairs.iter().map(|(k, v)| (ascii_lower(k), v.clone())).collect();
+            let a: Vec<(&String, &String)> = m.iter().collect();
+            let b: Vec<(&String, &String)> = other.iter().collect();
+            format!("{:?},{}", a.cmp(&b), a == b)
+        },
+        QOp::KeyCmp(k, s) => match present(m, k) {
+            Some(_) => {
+                let lk = ascii_lower(k);
+                let ls = ascii_lower(s);
+                format!("{},{:?}", lk == ls, Some(lk.as_str().cmp(ls.as_str())))
+            },
+            None => "absent".into(),
+        },
+        QOp::KeyDerefAsRef(k) => match present(m, k) {
+            Some(_) => format!("{:?}", ascii_lower(k)),
+            None => "absent".into(),
+        },
+    }
+}
+
+fn real_list(q: &Qualifiers) -> String {
+    format!("{:?}", q.iter().map(|(k, v)| (k.as_str().to_string(), v.to_string())).collect::<Vec<_>>())
+}
+
+fn hash_of<T: Hash>(v: &T) -> u64 {
+    let mut h = DefaultHasher::new();
+    v.hash(&mut h);
+    h.finish()
+}
+
+fn ropt(v: Option<&str>) -> String {
+    opt(v)
+}
+
+/// The same operation on the real collection, rendered the same way.
+pub fn apply_real(q: &mut Qualifiers, op: &QOp) -> String {
+    match op {
+        QOp::Insert(k, v) => match q.insert(k.as_str(), v.as_str()) {
+            Ok(r) => format!("Ok({:?})", r.as_str()),
+            Err(e) => format!("Err({e:?})"),
+        },
+        QOp::Remove(k) => ropt(q.remove(k.as_str()).as_deref()),
+        QOp::Get(k) => ropt(q.get(k.as_str())),
+        QOp::GetMut(k, nv) => match q.get_mut(k.as_str()) {
+            Some(v) => {
+                let old = v.to_string();
+                *v = SmallString::from(nv.as_str());
+                format!("Some({old:?})")
+            },
+            None => "None".into(),
+        },
+        QOp::Contains(k) => q.contains_key(k.as_str()).to_string(),
+        QOp::Index(k) => format!("{:?}", q[k.as_str()].as_str()),
+        QOp::IndexMut(k, nv) => {
+            let slot = &mut q[k.as_str()];
+            let old = slot.to_string();
+            *slot = SmallString::from(nv.as_str());
+            format!("{old:?}")
+        },
+        QOp::EntryClassify(k) => match q.entry(k.as_str()) {
+            Ok(Entry::Occupied(_)) => "Occupied".into(),
+            Ok(Entry::Vacant(_)) => "Vacant".into(),
+            Err(e) => format!("Err({e:?})"),
+        },
+        QOp::EntryOrInsert(k, v) => match q.entry(k.as_str()) {
+            Ok(e) => format!("{:?}", e.or_insert(v.as_str()).as_str()),
+            Err(e) => format!("Err({e:?})"),
+        },
+        QOp::EntryOrInsertWith(k, v) => match q.entry(k.as_str()) {
+            Ok(e) => format!("{:?}", e.or_insert_with(|| v.as_str()).as_str()),
+            Err(e) => format!("Err({e:?})"),
+        },
+        QOp::EntryAndModifyOrInsert(k, app, v) => match q.entry(k.as_str()) {
+            Ok(e) => format!("{:?}", e.and_modify(|x| x.push_str(app)).or_insert(v.as_str()).as_str()),
+            Err(e) => format!("Err({e:?})"),
+        },
+        QOp::OccGet(k) => match q.entry(k.as_str()) {
+            Ok(Entry::Occupied(o)) => format!("{:?}", o.get()),
+            Ok(Entry::Vacant(_)) => "Vacant".into(),
+            Err(e) => format!("Err({e:?})"),
+        },
+        QOp::OccGetMut(k, nv) => match q.entry(k.as_str()) {
+            Ok(Entry::Occupied(mut o)) => {
+                let old = o.get_mut().to_string();
+                *o.get_mut() = SmallString::from(nv.as_str());
+                format!("{old:?}")
+            },
+            Ok(Entry::Vacant(_)) => "Vacant".into(),
+            Err(e) => format!("Err({e:?})"),
+        },
+        QOp::OccIntoMut(k, nv) => match q.entry(k.as_str()) {
+            Ok(Entry::Occupied(o)) => {
+                let r = o.into_mut();
+                let old = r.to_string();
+                *r = SmallString::from(nv.as_str());
+                format!("{old:?}")
+            },
+            Ok(Entry::Vacant(_)) => "Vacant".into(),
+            Err(e) => format!("Err({e:?})"),
+        },
+        QOp::OccInsert(k, nv) => match q.entry(k.as_str()) {
+            Ok(Entry::Occupied(mut o)) => format!("{:?}", o.insert(nv.as_str()).as_str()),
+            Ok(Entry::Vacant(_)) => "Vacant".into(),
+            Err(e) => format!("Err({e:?})"),
+        },
+        QOp::OccRemove(k) => match q.entry(k.as_str()) {
+            Ok(Entry::Occupied(o)) => format!("{:?}", o.remove().as_str()),
+            Ok(Entry::Vacant(_)) => "Vacant".into(),
+            Err(e) => format!("Err({e:?})"),
+        },
+        QOp::OccRemoveEntry(k) => match q.entry(k.as_str()) {
+            Ok(Entry::Occupied(o)) => {
+                let (k, v) = o.remove_entry();
+                format!("({:?}, {:?})", k.as_str(), v.as_str())
+            },
+            Ok(Entry::Vacant(_)) => "Vacant".into(),
+            Err(e) => format!("Err({e:?})"),
+        },
+        QOp::VacInsert(k, v) => match q.entry(k.as_str()) {
+            Ok(Entry::Vacant(e)) => format!("{:?}", e.insert(v.as_str()).as_str()),
+            Ok(Entry::Occupied(_)) => "Occupied".into(),
+            Err(e) => format!("Err({e:?})"),
+        },
+        QOp::InsertTyped(i, v) => {
+            let v = v.as_str();
+            match i {
+                0 => q.insert_typed(RepositoryUrl::from(v)),
+                1 => q.insert_typed(DownloadUrl::from(v)),
+                2 => q.insert_typed(VcsUrl::from(v)),
+                3 => q.insert_typed(FileName::from(v)),
+                4 => q.insert_typed(Classifier::from(v)),
+                5 => q.insert_typed(MavenType::from(v)),
+                _ => q.insert_typed(Platform::from(v)),
+            }
+            "()".into()
+        },
+        QOp::TryInsertChecksum(entries) => match q.try_insert_typed(make_checksum(entries)) {
+            Ok(()) => "Ok".into(),
+            Err(e) => format!("Err({e:?})"),
+        },
+        QOp::RemoveTyped(i) => {
+            match i {
+                0 => q.remove_typed::<RepositoryUrl>(),
+                1 => q.remove_typed::<DownloadUrl>(),
+                2 => q.remove_typed::<VcsUrl>(),
+                3 => q.remove_typed::<FileName>(),
+                4 => q.remove_typed::<Classifier>(),
+                5 => q.remove_typed::<MavenType>(),
+                _ => q.remove_typed::<Platform>(),
+            }
+            "()".into()
+        },
+        QOp::GetTyped(i) => match i {
+            0 => ropt(q.get_typed::<RepositoryUrl>().as_deref()),
+            1 => ropt(q.get_typed::<DownloadUrl>().as_deref()),
+            2 => ropt(q.get_typed::<VcsUrl>().as_deref()),
+            3 => ropt(q.get_typed::<FileName>().as_deref()),
+            4 => ropt(q.get_typed::<Classifier>().as_deref()),
+            5 => ropt(q.get_typed::<MavenType>().as_deref()),
+            _ => ropt(q.get_typed::<Platform>().as_deref()),
+        },
+        QOp::TryGetChecksum => match q.try_get_typed::<Checksum>() {
+            Ok(None) => "Ok(None)".into(),
+            Ok(Some(c)) => {
+                let mut v: Vec<(String, String)> = c.iter().map(|(a, h)| (a.to_string(), h.raw().to_string())).collect();
+                v.sort();
+                format!("Ok(Some({v:?}))")
+            },
+            Err(e) => format!("Err({e:?})"),
+        },
+        QOp::ContainsTyped(i) => match i {
+            0 => q.contains_typed::<RepositoryUrl>(),
+            1 => q.contains_typed::<DownloadUrl>(),
+            2 => q.contains_typed::<VcsUrl>(),
+            3 => q.contains_typed::<FileName>(),
+            4 => q.contains_typed::<Classifier>(),
+            5 => q.contains_typed::<MavenType>(),
+            _ => q.contains_typed::<Platform>(),
+        }
+        .to_string(),
+        QOp::Retain(p) => {
+            q.retain(|k, v| p.eval_real(k, v));
+            "()".into()
+        },
+        QOp::RetainMut(p, app) => {
+            q.retain_mut(|k, v| {
+                let keep = p.eval_real(k, v);
+                v.push_str(app);
+                keep
+            });
+            "()".into()
+        },
+        QOp::Clear => {
+            q.clear();
+            "()".into()
+        },
+        QOp::Reserve(n) => {
+            q.reserve(*n as usize);
+            if q.capacity() >= q.len() + *n as usize {
+                "capacity-ok".into()
+            } else {
+                format!("capacity {} < len {} + {n}", q.capacity(), q.len())
+            }
+        },
+        QOp::ReserveExact(n) => {
+            q.reserve_exact(*n as usize);
+            if q.capacity() >= q.len() + *n as usize {
+                "capacity-ok".into()
+            } else {
+                format!("capacity {} < len {} + {n}", q.capacity(), q.len())
+            }
+        },
+        QOp::IterFwd => real_list(q),
+        QOp::IntoIterRef => {
+            let mut v = Vec::new();
+            for (k, val) in &*q {
+                v.push((k.as_str().to_string(), val.to_string()));
+            }
+            format!("{v:?}")
+        },
+        QOp::IterBack => format!("{:?}", q.iter().rev().map(|(k, v)| (k.as_str().to_string(), v.to_string())).collect::<Vec<_>>()),
+        QOp::IterInterleaved(bits) => {
+            let mut it = q.iter();
+            let mut out = String::new();
+            let mut step = 0;
+            loop {
+                let l = it.len();
+                let sh = it.size_hint();
+                if sh != (l, Some(l)) {
+                    out.push_str(&format!("[size_hint {sh:?} != len {l}]"));
+                }
+                out.push_str(&format!("[len={l}]"));
+                if l == 0 {
+                    // an exhausted iterator must stay exhausted from both ends
+                    let a = it.next().is_none();
+                    let b = it.next_back().is_none();
+                    out.push_str(&format!("{},{}", if a { "None" } else { "Some" }, if b { "None" } else { "Some" }));
+                    break;
+                }
+                let item = if bits >> (step % 32) & 1 == 1 { it.next_back() } else { it.next() };
+                match item {
+                    Some((k, v)) => out.push_str(&format!("{:?}", (k.as_str().to_string(), v.to_string()))),
+                    None => {
+                        out.push_str("None-too-early");
+                        break;
+                    },
+                }
+                step += 1;
+            }
+            out
+        },
+        QOp::IterMutAppend(app) => {
+            let mut it = q.iter_mut();
+            let l = it.len();
+            let mut n = 0;
+            while let Some((_, v)) = it.next() {
+                v.push_str(app);
+                n += 1;
+                if it.len() + n != l || it.size_hint() != (l - n, Some(l - n)) {
+                    return format!("iter_mut len bookkeeping wrong at step {n}");
+                }
+            }
+            real_list(q)
+        },
+        QOp::IterMutBackFirst(app) => {
+            if let Some((_, v)) = q.iter_mut().next_back() {
+                v.push_str(app);
+            }
+            real_list(q)
+        },
+        QOp::IntoIterMutAppend(app) => {
+            for (_, v) in &mut *q {
+                v.push_str(app);
+            }
+            real_list(q)
+        },
+        QOp::LenIsEmpty => format!("{},{}", q.len(), q.is_empty()),
+        QOp::CloneEqHash => {
+            let c = q.clone();
+            {
+                let qr: &Qualifiers = q;
+                (c == *qr && hash_of(&c) == hash_of(qr) && c.cmp(qr) == std::cmp::Ordering::Equal && c.partial_cmp(qr) == Some(std::cmp::Ordering::Equal)).to_string()
+            }
+        },
+        QOp::TryFromIter(pairs) => match Qualifiers::try_from_iter(pairs.iter().map(|(k, v)| (k.as_str(), v.as_str()))) {
+            Ok(n) => {
+                *q = n;
+                format!("Ok({})", real_list(q))
+            },
+            Err(e) => format!("Err({e:?})"),
+        },
+        QOp::Rebuild(seed) => {
+            let mut items: Vec<(String, String)> = q.iter().map(|(k, v)| (k.as_str().to_string(), v.to_string())).collect();
+            let mut r = Rng::new(*seed);
+            r.shuffle(&mut items);
+            let mut other = Qualifiers::default();
+            for (k, v) in &items {
+                let kk: String = k.chars().map(|c| if r.coin() { c.to_ascii_uppercase() } else { c }).collect();
+                match r.below(3) {
+                    0 => {
+                        let _ = other.insert(kk.as_str(), v.as_str());
+                    },
+                    1 => {
+                        if let Ok(e) = other.entry(kk.as_str()) {
+                            e.or_insert(v.as_str());
+                        }
+                    },
+                    _ => {
+                        // insert a wrong value first, then overwrite through another case variant
+                        let _ = other.insert(k.as_str(), "tmp");
+                        let _ = other.insert(kk.as_str(), v.as_str());
+                    },
+                }
+            }
+            let qr: &Qualifiers = q;
+            let same = other == *qr && hash_of(&other) == hash_of(qr) && other.cmp(qr) == std::cmp::Ordering::Equal && other.partial_cmp(qr) == Some(std::cmp::Ordering::Equal);
+            if same {
+                "true".into()
+            } else {
+                format!("rebuilt {} vs {}: eq={} hash_eq={} cmp={:?}", real_list(&other), real_list(q), other == *q, hash_of(&other) == hash_of(q), other.cmp(q))
+            }
+        },
+        QOp::CmpWith(pairs) => {
+            let mut other = Qualifiers::default();
+            for (k, v) in pairs {
+                let _ = other.insert(k.as_str(), v.as_str());
+            }
+            let c = (*q).cmp(&other);
+            let qr: &Qualifiers = q;
+            let consistent = qr.partial_cmp(&other) == Some(c) && other.cmp(qr) == c.reverse();
+            if consistent {
+                format!("{:?},{}", c, *q == other)
+            } else {
+                format!("inconsistent ordering: cmp={c:?} partial_cmp={:?} reverse={:?}", qr.partial_cmp(&other), other.cmp(qr))
+            }
+        },
+        QOp::KeyCmp(k, s) => match q.iter().find(|(qk, _)| qk.as_str() == ascii_lower(k)) {
+            Some((qk, _)) if key_ok(k) => {
+                let eq = *qk == *s.as_str();
+                let eq2 = qk == &s.to_string();
+                if eq != eq2 {
+                    return "PartialEq<&str> and PartialEq<String> disagree".into();
+                }
+                format!("{},{:?}", eq, qk.partial_cmp(s.as_str()))
+            },
+            _ => "absent".into(),
+        },
+        QOp::KeyDerefAsRef(k) => match q.iter().find(|(qk, _)| qk.as_str() == ascii_lower(k)) {
+            Some((qk, _)) if key_ok(k) => {
+                let d: &str = qk;
+                let a: &str = qk.as_ref();
+                let s = SmallString::from(qk);
+                if d != a || d != s.as_str() || d != qk.as_str() {
+                    return "deref/as_ref/into disagree".into();
+                }
+                format!("{d:?}")
+            },
+            _ => "absent".into(),
+        },
+    }
+}
+
+/// One lock-step transition. Returns the failure if real and model disagree.
+pub fn step(q: &mut Qualifiers, m: &mut M, op: &QOp) -> Option<Fail> {
+    let before = list(m);
+    let want = apply_model(m, op);
+    let got = guard("Qualifiers op", || apply_real(q, op));
+    let got_s = match &got {
+        Out::Ok(s) => s.clone(),
+        Out::Panic(p) => {
+            if want == PANIC && p.starts_with("Qualifier ") && p.contains("not found") {
+                PANIC.to_string()
+            } else {
+                format!("PANIC[{p}]")
+            }
+        },
+        Out::Err(e) => e.clone(),
+    };
+    if got_s != want {
+        return Some(Fail::tagged("result-differs", op.form(), format!("on content {before} the operation {op:?} returned {got_s}; the reference map gives {want}")));
+    }
+    let state = real_list(q);
+    let mstate = format!("{:?}", m.iter().map(|(k, v)| (k.clone(), v.clone())).collect::<Vec<_>>());
+    if state != mstate {
+        return Some(Fail::tagged("content-differs", op.form(), format!("on content {before} after {op:?} the collection holds {state}; the reference map holds {mstate}")));
+    }
+    if q.len() != m.len() || q.is_empty() != m.is_empty() {
+        return Some(Fail::tagged("len-differs", op.form(), format!("after {op:?}: len() {} vs {}", q.len(), m.len())));
+    }
+    None
+}
+
+/// Run a whole history from the empty collection.
+pub fn run_history(ops: &[QOp]) -> Option<(usize, Fail)> {
+    let mut q = Qualifiers::default();
+    let mut m = M::new();
+    for (i, op) in ops.iter().enumerate() {
+        if let Some(f) = step(&mut q, &mut m, op) {
+            return Some((i, f));
+        }
+    }
+    None
+}
+
+// --- workloads -------------------------------------------------------------------------------
+
+const UK: [&str; 9] = ["a", "A", "b", "B", "c", "", "!", "a b", "é"];
+const UV: [&str; 3] = ["", "x", "Y"];
+
+fn universe_ops() -> Vec<QOp> {
+    let mut v = Vec::new();
+    let s = |x: &str| x.to_string();
+    for k in UK {
+        v.push(QOp::Remove(s(k)));
+        v.push(QOp::Get(s(k)));
+        v.push(QOp::Contains(s(k)));
+        v.push(QOp::Index(s(k)));
+        v.push(QOp::EntryClassify(s(k)));
+        v.push(QOp::OccGet(s(k)));
+        v.push(QOp::OccRemove(s(k)));
+        v.push(QOp::OccRemoveEntry(s(k)));
+        v.push(QOp::KeyDerefAsRef(s(k)));
+        for val in UV {
+            v.push(QOp::Insert(s(k), s(val)));
+            v.push(QOp::GetMut(s(k), s(val)));
+            v.push(QOp::IndexMut(s(k), s(val)));
+            v.push(QOp::EntryOrInsert(s(k), s(val)));
+            v.push(QOp::EntryOrInsertWith(s(k), s(val)));
+            v.push(QOp::EntryAndModifyOrInsert(s(k), s("+"), s(val)));
+            v.push(QOp::OccGetMut(s(k), s(val)));
+            v.push(QOp::OccIntoMut(s(k), s(val)));
+            v.push(QOp::OccInsert(s(k), s(val)));
+            v.push(QOp::VacInsert(s(k), s(val)));
+        }
+        for other in ["a", "A", "B", "c", "ab", ""] {
+            v.push(QOp::KeyCmp(s(k), s(other)));
+        }
+        v.push(QOp::Retain(Pred::KeyEq(s(k))));
+        v.push(QOp::Retain(Pred::KeyNe(s(k))));
+    }
+    for p in [Pred::All, Pred::Nothing, Pred::KeyLe(s("a")), Pred::KeyLe(s("b")), Pred::ValueNonEmpty] {
+        v.push(QOp::Retain(p.clone()));
+        v.push(QOp::RetainMut(p, s("~")));
+    }
+    v.push(QOp::InsertTyped(0, s("u")));
+    v.push(QOp::InsertTyped(4, s("")));
+    v.push(QOp::RemoveTyped(0));
+    v.push(QOp::GetTyped(0));
+    v.push(QOp::ContainsTyped(0));
+    v.push(QOp::TryGetChecksum);
+    v.push(QOp::TryInsertChecksum(vec![]));
+    v.push(QOp::TryInsertChecksum(vec![(s("B"), CsVal::Bytes(vec![255])), (s("a"), CsVal::Raw(s("0A")))]));
+    v.push(QOp::TryInsertChecksum(vec![(s("a"), CsVal::Raw(s("zz")))]));
+    v.push(QOp::Clear);
+    v.push(QOp::Reserve(3));
+    v.push(QOp::ReserveExact(5));
+    v.push(QOp::IterFwd);
+    v.push(QOp::IterBack);
+    for bits in 0..8 {
+        v.push(QOp::IterInterleaved(bits));
+    }
+    v.push(QOp::IterMutAppend(s("!")));
+    v.push(QOp::IterMutBackFirst(s("!")));
+    v.push(QOp::IntoIterRef);
+    v.push(QOp::IntoIterMutAppend(s("?")));
+    v.push(QOp::LenIsEmpty);
+    v.push(QOp::CloneEqHash);
+    for seed in 0..6 {
+        v.push(QOp::Rebuild(seed));
+    }
+    let pair_sets: [&[(&str, &str)]; 8] = [
+        &[],
+        &[("a", "x")],
+        &[("A", "x")],
+        &[("a", "x"), ("A", "Y")],
+        &[("b", ""), ("a", "Y")],
+        &[("a", "x"), ("!", "x")],
+        &[("", "x")],
+        &[("c", "x"), ("b", "x"), ("a", "x")],
+    ];
+    for ps in pair_sets {
+        let ps: Vec<(String, String)> = ps.iter().map(|(k, v)| (s(k), s(v))).collect();
+        v.push(QOp::TryFromIter(ps.clone()));
+        v.push(QOp::CmpWith(ps.into_iter().filter(|(k, _)| key_ok(k)).collect()));
+    }
+    v
+}
+
+fn rand_key(r: &mut Rng, pool: &[String]) -> String {
+    match r.below(10) {
+        0..=5 => {
+            let k = r.pick(pool).clone();
+            if r.coin() {
+                k.chars().map(|c| if r.coin() { c.to_ascii_uppercase() } else { c.to_ascii_lowercase() }).collect()
+            } else {
+                k
+            }
+        },
+        6 => r.pick(&TYPED_KEYS).to_string(),
+        7 => r.pick(&["checksum", "Checksum"]).to_string(),
+        8 => gen::mixed_string(r, 0, 6, 60),
+        _ => crate::spell::gen_key(r),
+    }
+}
+
+fn rand_val(r: &mut Rng) -> String {
+    match r.below(6) {
+        0 => String::new(),
+        1 => gen::mixed_string(r, 1, 40, 30),
+        _ => gen::mixed_string(r, 1, 5, 20),
+    }
+}
+
+fn rand_op(r: &mut Rng, pool: &[String]) -> QOp {
+    let k = rand_key(r, pool);
+    match r.below(44) {
+        0..=5 => QOp::Insert(k, rand_val(r)),
+        6..=7 => QOp::Remove(k),
+        8 => QOp::Get(k),
+        9 => QOp::GetMut(k, rand_val(r)),
+        10 => QOp::Contains(k),
+        11 => QOp::Index(k),
+        12 => QOp::IndexMut(k, rand_val(r)),
+        13 => QOp::EntryClassify(k),
+        14 => QOp::EntryOrInsert(k, rand_val(r)),
+        15 => QOp::EntryOrInsertWith(k, rand_val(r)),
+        16 => QOp::EntryAndModifyOrInsert(k, rand_val(r), rand_val(r)),
+        17 => QOp::OccGet(k),
+        18 => QOp::OccGetMut(k, rand_val(r)),
+        19 => QOp::OccIntoMut(k, rand_val(r)),
+        20 => QOp::OccInsert(k, rand_val(r)),
+        21 => QOp::OccRemove(k),
+        22 => QOp::OccRemoveEntry(k),
+        23 => QOp::VacInsert(k, rand_val(r)),
+        24 => QOp::InsertTyped(r.below(7) as u8, rand_val(r)),
+        25 => QOp::TryInsertChecksum(crate::hist::rand_cs_entries(r)),
+        26 => QOp::RemoveTyped(r.below(7) as u8),
+        27 => QOp::GetTyped(r.below(7) as u8),
+        28 => QOp::TryGetChecksum,
+        29 => QOp::ContainsTyped(r.below(7) as u8),
+        30 => QOp::Retain(match r.below(6) {
+            0 => Pred::All,
+            1 => Pred::Nothing,
+            2 => Pred::KeyLe(r.pick(pool).clone()),
+            3 => Pred::ValueNonEmpty,
+            4 => Pred::KeyEq(k),
+            _ => Pred::KeyNe(k),
+        }),
+        31 => QOp::RetainMut(if r.coin() { Pred::KeyNe(k) } else { Pred::ValueNonEmpty }, rand_val(r)),
+        32 => {
+            if r.chance(1, 6) {
+                QOp::Clear
+            } else {
+                QOp::LenIsEmpty
+            }
+        },
+        33 => {
+            if r.coin() {
+                QOp::Reserve(r.below(20) as u8)
+            } else {
+                QOp::ReserveExact(r.below(20) as u8)
+            }
+        },
+        34 => QOp::IterFwd,
+        35 => QOp::IterBack,
+        36 => QOp::IterInterleaved(r.next() as u32),
+        37 => QOp::IterMutAppend(rand_val(r)),
+        38 => {
+            if r.coin() {
+                QOp::IterMutBackFirst(rand_val(r))
+            } else {
+                QOp::IntoIterMutAppend(rand_val(r))
+            }
+        },
+        39 => {
+            if r.coin() {
+                QOp::IntoIterRef
+            } else {
+                QOp::CloneEqHash
+            }
+        },
+        40 => {
+            let n = r.below(6);
+            QOp::TryFromIter((0..n).map(|_| (rand_key(r, pool), rand_val(r))).collect())
+        },
+        41 => QOp::Rebuild(r.next()),
+        42 => {
+            let n = r.below(5);
+            QOp::CmpWith((0..n).map(|_| (rand_key(r, pool), rand_val(r))).filter(|(k, _)| key_ok(k)).collect())
+        },
+        _ => {
+            if r.coin() {
+                QOp::KeyCmp(k, rand_key(r, pool).chars().filter(|c| c.is_ascii()).collect())
+            } else {
+                QOp::KeyDerefAsRef(k)
+            }
+        },
+    }
+}
+
+fn observe(ctx: &mut Ctx, m_before_len: usize, m: &M, op: &QOp, result: &str) {
+    ctx.st.set_insert("operation-forms-exercised", op.form().to_string());
+    ctx.st.max("max:collection-size", m.len() as u64);
+    if result == PANIC {
+        ctx.st.count("observed:documented-index-panic");
+    }
+    if result == "Err(InvalidQualifier)" {
+        if matches!(op, QOp::TryFromIter(_)) {
+            ctx.st.count("observed:try-from-iter-duplicate-refused");
+        } else if op.key().map_or(false, |k| !key_ok(k)) {
+            ctx.st.count("observed:invalid-key-refused");
+        }
+    }
+    if let Some(k) = op.key() {
+        if key_ok(k) && k.bytes().any(|b| b.is_ascii_uppercase()) && (m.contains_key(&ascii_lower(k)) || m.len() < m_before_len) {
+            ctx.st.count("observed:case-variant-lookup-hit");
+        }
+    }
+}
+
+pub fn run(ctx: &mut Ctx) {
+    // G5(a): every reachable content over {a,b,c} x {absent, "", x, Y}, built through the real
+    // API, then every operation form with every argument combination applied to it
+    let ops = universe_ops();
+    let mut idx = 0u64;
+    for code in 0..64u32 {
+        let mut content: Vec<(&str, &str)> = Vec::new();
+        for (i, k) in ["a", "b", "c"].iter().enumerate() {
+            let d = (code >> (2 * i)) & 3;
+            if d > 0 {
+                content.push((k, UV[(d - 1) as usize]));
+            }
+        }
+        for op in &ops {
+            idx += 1;
+            if !ctx.mine(idx) {
+                continue;
+            }
+            // build the content in an order / case that depends on the index
+            let mut q = Qualifiers::default();
+            let mut m = M::new();
+            let mut order = content.clone();
+            let mut r = Rng::new(idx);
+            r.shuffle(&mut order);
+            let mut prefix = Vec::new();
+            for (k, v) in &order {
+                let kk = if r.coin() { k.to_ascii_uppercase() } else { k.to_string() };
+                let ins = QOp::Insert(kk, v.to_string());
+                if let Some(f) = step(&mut q, &mut m, &ins) {
+                    ctx.st.violation("C11.map", format!("C11.map:{}:{}", f.kind, f.tag), f.detail, json!({"ops": [ins]}));
+                }
+                prefix.push(ins);
+            }
+            ctx.st.set_insert("exhaustive-contents-reached", list(&m));
+            ctx.st.evaluations += 1;
+            ctx.st.count("exhaustive-transitions");
+            let before = m.len();
+            let res = {
+                let mut mm = m.clone();
+                apply_model(&mut mm, op)
+            };
+            if op.key().is_some() || m.len() >= 2 {
+                ctx.st.nontrivial(fnv(format!("{}|{op:?}", list(&m)).as_bytes()));
+            }
+            if let Some(f) = step(&mut q, &mut m, op) {
+                prefix.push(op.clone());
+                ctx.st.violation("C11.map", format!("C11.map:{}:{}", f.kind, f.tag), f.detail, json!({"ops": prefix}));
+            }
+            observe(ctx, before, &m, op, &res);
+        }
+    }
+    if ctx.worker == 0 {
+        ctx.st.exhaustive.push(json!({"name": format!("every content over keys {{a,b,c}} x values {{absent, \"\", x, Y}} (64) x every operation form with every argument from the universe ({} operations)", ops.len()), "size": 64 * ops.len(), "completed": true}));
+    }
+    // G5(b): long random histories over a small key pool (keys below and above the 23-byte inline limit)
+    let mut r = ctx.rng("c11.random");
+    for _ in 0..ctx.share(30_000, 1_500_000) {
+        let npool = r.range(2, 6);
+        let pool: Vec<String> = (0..npool)
+            .map(|_| {
+                let mut k = crate::spell::gen_key(&mut r).to_ascii_lowercase();
+                if r.chance(1, 5) {
+                    k.push_str("-a.very_long.key-suffix_0123456789");
+                }
+                k
+            })
+            .collect();
+        let n = r.range(10, 200);
+        let ops: Vec<QOp> = (0..n).map(|_| rand_op(&mut r, &pool)).collect();
+        ctx.st.count("random-histories");
+        let mut q = Qualifiers::default();
+        let mut m = M::new();
+        for (i, op) in ops.iter().enumerate() {
+            ctx.st.evaluations += 1;
+            ctx.st.count("random-transitions");
+            let before = m.len();
+            let res = {
+                let mut mm = m.clone();
+                apply_model(&mut mm, op)
+            };
+            if i % 16 == 0 && (op.key().is_some() || m.len() >= 2) {
+                ctx.st.nontrivial(fnv(format!("{}|{op:?}", list(&m)).as_bytes()));
+            }
+            if let Some(f) = step(&mut q, &mut m, op) {
+                let (kind, tag) = (f.kind.clone(), f.tag.clone());
+                let min = shrink_vec(&ops[..=i], &mut |cs| run_history(cs).map_or(false, |(_, g)| g.kind == kind && g.tag == tag));
+                let g = run_history(&min).map(|(_, g)| g).unwrap_or(f);
+                ctx.st.violation("C11.map", format!("C11.map:{}:{}", g.kind, g.tag), g.detail, json!({"ops": min}));
+                break;
+            }
+            observe(ctx, before, &m, op, &res);
+        }
+        ctx.st.sample(|| json!({"history_length": ops.len(), "first_operations": ops.iter().take(6).collect::<Vec<_>>(), "final_content": list(&m)}));
+    }
+}
+
+pub fn replay(_monitor: &str, case: &Value) -> Result<Option<Fail>, String> {
+    let ops: Vec<QOp> = serde_json::from_value(case.get("ops").cloned().unwrap_or(Value::Null)).map_err(|e| e.to_string())?;
+    Ok(run_history(&ops).map(|(_, f)| f))
 }
